@@ -148,6 +148,9 @@ def check_svd(case, rec):
     rec.label('tol_' + ('zero' if tol == 0 else case['tol']['mode']))
     A0 = A.copy(); q0c = q0.copy(); q1c = q1.copy()
     u, s, v, q = ptn.split_matrix_svd(A, q0, q1, tol)
+    # judged after the library has been used again: results must not live in storage that later calls reuse
+    ptn.split_matrix_svd(A[::-1, ::-1].copy(), q0[::-1].copy(), q1[::-1].copy(), 0.0)
+    ptn.split_matrix_svd(block_matrix(np.array([0, 1]), np.array([1, 0, 1]), 7, 'real'), np.array([0, 1]), np.array([1, 0, 1]), 0.0)
     require(A.tobytes() == A0.tobytes() and A.dtype == A0.dtype and A.shape == A0.shape, 'split_matrix_svd modified its input matrix')
     require(np.array_equal(q0, q0c) and np.array_equal(q1, q1c), 'split_matrix_svd modified its charge arguments')
     nd = judge_split(A, u, s, v, np.asarray(q), q0, q1, tol, rec)
